@@ -111,6 +111,26 @@ def gen_cases(ctx, tier):
             tree["lp/.keep"] = ""
         c.update(flags())
         cases.append(c)
+    # nested layouts (rsass 3dfdada): a dependency loaded from a file in a sub directory is looked up relative to that
+    # file first, then unchanged in the input's directory, then in the load path
+    for i in range(max(6, n // 12)):
+        where = ["pkgdir", "srcdir", "lp", "none"][i % 4]
+        tree = {"src/main.scss": '@use "pkg/a";\nmain{k:v}\n', "src/pkg/_a.scss": '@use "b";\na{k:v}\n', "lp/.keep": ""}
+        must, mustnot = [], []
+        if where == "pkgdir":
+            tree["src/pkg/_b.scss"] = "b{from:pkgdir}\n"
+            tree["src/b.scss"] = "b{from:srcdir}\n"
+            must, mustnot = ["pkgdir"], ["srcdir", "loadpath"]
+        elif where == "srcdir":
+            tree["src/b.scss"] = "b{from:srcdir}\n"
+            tree["lp/b.scss"] = "b{from:loadpath}\n"
+            must, mustnot = ["srcdir"], ["loadpath"]
+        elif where == "lp":
+            tree["lp/_b.scss"] = "b{from:loadpath}\n"
+            must = ["loadpath"]
+        c = {"tree": tree, "files": ["src/main.scss"], "lp": "lp", "must": must, "mustnot": mustnot, "layout": "nested-" + where}
+        c.update(flags())
+        cases.append(c)
     return cases
 
 
